@@ -32,25 +32,25 @@ func RepoDir() string {
 }
 
 type TLCOpts struct {
-	Module   string // module name (file Module.tla in spec/)
-	Cfg      string // cfg file name in spec/ (copied as is) ...
-	CfgText  string // ... or literal cfg text
-	Workers  int    // 0 = all cores
-	Dump     bool   // -dump states
-	DumpDot  bool   // -dump dot,actionlabels
-	Coverage bool
-	Simulate string // e.g. "num=100" ; file= is added automatically when SimFiles
-	SimFiles bool
-	Depth    int
-	Seed     int64
-	Deadlock bool // check deadlock (default off)
-	Timeout  time.Duration
-	Extra    map[string][]byte // extra files placed next to the spec (traces)
-	DFS      bool              // StateDeque depth-first queue
-	Xss      string
-	Heap     string
-	Continue bool // -continue
-	MaxSetSize int // -maxSetSize (TLC default 1000000)
+	Module     string // module name (file Module.tla in spec/)
+	Cfg        string // cfg file name in spec/ (copied as is) ...
+	CfgText    string // ... or literal cfg text
+	Workers    int    // 0 = all cores
+	Dump       bool   // -dump states
+	DumpDot    bool   // -dump dot,actionlabels
+	Coverage   bool
+	Simulate   string // e.g. "num=100" ; file= is added automatically when SimFiles
+	SimFiles   bool
+	Depth      int
+	Seed       int64
+	Deadlock   bool // check deadlock (default off)
+	Timeout    time.Duration
+	Extra      map[string][]byte // extra files placed next to the spec (traces)
+	DFS        bool              // StateDeque depth-first queue
+	Xss        string
+	Heap       string
+	Continue   bool // -continue
+	MaxSetSize int  // -maxSetSize (TLC default 1000000)
 }
 
 type TLCResult struct {
